@@ -174,3 +174,75 @@ func nothingPendingAt(w *World, ret *ssa.Return) bool {
 	}
 	return false
 }
+
+// ruleSessionReset (RDC-2): NoiseGrpcConn is a long-lived credentials object; every handshake
+// installs a new Machine on it. The part of a decrypted record that a Read keeps for the next
+// call (nextMsg) belongs to the stream of the Machine that decrypted it. Every function that
+// installs a new Machine must therefore drop that tail on every path to a successful return -
+// otherwise the first Read of the new session yields bytes its peer never wrote (F17).
+func ruleSessionReset(c *Checker, rule string) {
+	w := c.w
+	fNoise := w.Field("mailbox.NoiseGrpcConn.noise")
+	fNext := w.Field("mailbox.NoiseGrpcConn.nextMsg")
+	if fNoise == nil || fNext == nil {
+		c.anchorFail("mailbox.NoiseGrpcConn.noise / nextMsg")
+		return
+	}
+	isReset := func(in ssa.Instruction) bool {
+		st, ok := in.(*ssa.Store)
+		if !ok {
+			return false
+		}
+		fa, ok := st.Addr.(*ssa.FieldAddr)
+		if !ok || structFieldOf(fa) != fNext {
+			return false
+		}
+		if isNilConst(st.Val) {
+			return true
+		}
+		if sl, ok := st.Val.(*ssa.Slice); ok && sl.High != nil {
+			if k, ok := intConst(sl.High); ok && k == 0 {
+				return true
+			}
+		}
+		return false
+	}
+	n := 0
+	seen := map[*ssa.Function]bool{}
+	for _, st := range w.Stores(fNoise) {
+		fn := st.Parent()
+		if seen[fn] {
+			continue
+		}
+		seen[fn] = true
+		n++
+		bad := ""
+		allInstrs(fn, func(in ssa.Instruction) {
+			ret, ok := in.(*ssa.Return)
+			if !ok || ret.Block().Comment == "recover" || len(ret.Results) == 0 {
+				return
+			}
+			last := ret.Results[len(ret.Results)-1]
+			if isErrorType(last.Type()) {
+				succ := false
+				for _, e := range expandValues(last) {
+					if isNilConst(e) {
+						succ = true
+					}
+				}
+				if !succ {
+					return
+				}
+			}
+			if pathFromEntry(fn, ret, isReset) {
+				bad = w.pos(instrPos(ret))
+			}
+		})
+		c.decide(bad == "", rule, fnName(fn)+"|a new Machine comes with an empty read tail", instrPos(st),
+			"every successful return has passed nextMsg = nil",
+			fnName(fn)+" installs a new noise Machine but can return successfully (at "+bad+") with the unread tail of the previous session still in nextMsg: the first Read of the new session hands out bytes its peer never wrote")
+	}
+	if n < 2 {
+		c.fail(rule, "session-reset|sites", 0, fmt.Sprintf("expected the two handshake entry points to install a Machine, found %d", n))
+	}
+}
